@@ -30,7 +30,8 @@ RULE = (
     "a history-free reference run per job in its own interpreter, independent "
     "feasibility and re-evaluation of the logged solution, parse-back equality. "
     "Non-trivial = at least two runs shared an interpreter or the directory was "
-    "visited by at least two boots; distinct = distinct scenario digests.")
+    "visited by at least two boots; distinct = distinct scenario digests."
+    " Instance pools are stratified by structure class; the data of the bundled instances is compared with digests recorded on the pinned tree; the directory is also evaluated with other bound calculators and while a peer's claimed runs are still empty files.")
 COMPONENTS = {
     "real": ["binpacking2d.experiment.rls/fea/base_setup, all 7 objectives, both "
              "encodings, PackingSpace", "tsp EA/FEA + TourLength",
